@@ -59,7 +59,14 @@ impl EventStore {
         }
 
         // Memory map it
-        let event_map = unsafe { MmapAppend::new(&event_map_file, new)? };
+        let mut event_map = unsafe { MmapAppend::new(&event_map_file, new)? };
+
+        // A file that was sized but never got its header (the process died between
+        // set_len() and the header write) reads as an end marker of 0, and the next
+        // append would then overwrite the header itself. It holds no events: initialize it.
+        if event_map.get_end() < mmap_append::HEADER_SIZE {
+            event_map = unsafe { MmapAppend::new(&event_map_file, true)? };
+        }
 
         Ok(EventStore {
             event_map_file,
